@@ -19,6 +19,7 @@ def sh(cmd, cwd=None, timeout=1200):
 def main():
     seed_dir, pid = sys.argv[1], sys.argv[2]
     letters = sys.argv[3] if len(sys.argv) > 3 else "ABCD"
+    tag = os.environ.get("BENIGN_TAG", "")
     for X in letters:
         patch = os.path.join(seed_dir, "%s.diff" % X)
         script = os.path.join(seed_dir, "equiv_%s.py" % X)
@@ -48,7 +49,7 @@ def main():
             print(pid, X, "transcript-identical", same, "baseline", rcb, "=>", "CONFIRMED" if ok else "REJECTED")
             if not ok:
                 continue
-            dst = os.path.join("/verif/benign", "%s-%s" % (pid, X))
+            dst = os.path.join("/verif/benign", "%s-%s%s" % (pid, tag, X))
             os.makedirs(dst, exist_ok=True)
             shutil.copy(patch, os.path.join(dst, "patch.diff"))
             shutil.copy(script, os.path.join(dst, "equiv.py"))
